@@ -47,7 +47,7 @@ prop("C01", "exploration",
      {"quick": 300000, "thorough": 3000000},
      ["wallet output sets whose total value does not fit in u64 are not generated (a wallet's outputs exist on one chain, so their sum is bounded by the supply)",
       "exhaustive=true refers to the bounded small scope of workload A only"],
-     required_hist=["A:built", "B:send-built", "B:invoice-paid", "B:late-lock-built", "B:late-lock-with-coin-drift", "B:refused:unknown-source-account", "B:fee-exceeds-the-kernel-fee-field:refused:Transaction", "A:fee-exceeds-the-kernel-fee-field:send-refused:Transaction", "B:refused:Transaction"])
+     required_hist=["A:built", "B:send-built", "B:invoice-paid", "B:late-lock-built", "B:late-lock-with-coin-drift", "B:fee-exceeds-the-kernel-fee-field:refused:Transaction", "A:fee-exceeds-the-kernel-fee-field:send-refused:Transaction", "B:refused:Transaction"])
 
 prop("C08", "exploration",
      "structural generator over every optional V4 slate field (7 states, num_parts {0,1,2,3,255}, boundary integers, fee shift, "
